@@ -8,7 +8,7 @@ Functional correspondence with the Lean model `convert`; spec: never raises, res
 """
 import pulp
 
-from core import Result, call, parallel_map
+from core import history_probe, Result, call, parallel_map
 from gen import g1
 from corr.c01 import component_sizes
 
@@ -119,6 +119,7 @@ def run(ctx):
             cases.append((seq, pairs, cfg, fault))
             meta.append((tag, knotted))
     outs = parallel_map(real, cases)
+    history_probe(ctx, res, real, cases, "dot_bracket-under-faults")
     reqs, idx = [], []
     for ci, ((seq, pairs, cfg, fault), o) in enumerate(zip(cases, outs)):
         ps = g1.pstr(pairs)
